@@ -51,9 +51,29 @@ def impl(c, objs=None):
     after = tgops.snap(g)
     if r[0] == "ok":
         res = r[1]
-        return ("ok", tgops.snap(res), {"same": res is g, "arg": after,
+        return ("ok", tgops.snap(res), {"same": res is g, "arg": after, "shared": any(x is y for x in res.tiers for y in g.tiers),
                                        "valid": [T.call(lambda t=t: t.validate("silence")) for t in res.tiers]})
     return r + ({"arg": after},)
+
+
+def c13_problems(c, r):
+    """C13's clauses for the two functions, as (clause, object) pairs: spellCheckEntries is documented to work on a copy
+    (argument unchanged whatever happens, another object returned, no tier object shared); splitTierEntries modifies and
+    returns the textgrid it is given (neither in C13's list of copy-returning operations nor of mutators) — a raising call
+    must leave it exactly as it was"""
+    if c["op"] == "u_wsplit":
+        return []
+    info = r[2] if r[0] == "ok" else r[3]
+    changed = info["arg"] != tgops.norm(c["tg"])
+    out = []
+    if c["op"] == "sc_spell":
+        if changed:
+            out.append(("argument-mutated", "tg"))
+        if r[0] == "ok" and (info["same"] or info["shared"]):
+            out.append(("copy-shares-objects-with-argument", "tg"))
+    elif r[0] == "err" and changed:
+        out.append(("failed-mutation-changes-nothing", "tg"))
+    return out
 
 
 def render(c, r, enc):
